@@ -767,6 +767,11 @@ func adj(inTime time.Time, cv *v1proto.ColumnValue, outTime time.Time) *v1proto.
 		return cv
 	}
 	out := proto.Clone(cv).(*v1proto.ColumnValue)
+	if cv.Value != nil && out.Value != nil {
+		// proto.Clone leaves out a negative zero (its merge treats a REAL
+		// that compares equal to 0 as unset): keep the exact bits.
+		out.Value.Real = cv.Value.Real
+	}
 	out.UpdateOffset = durationpb.New(UpdateTime(inTime, cv).Sub(outTime))
 	return out
 }
